@@ -7,7 +7,7 @@ V=$(cd "$(dirname "$0")/.." && pwd)
 cd $WT || exit 2
 git checkout -q -- . ; rm -f tests/demo.rs
 git apply $P || exit 2
-unshare -m bash -c "mount --bind $WT /repo && cd $V && checks/run $C $T" > $V/work/mutant_$C.log 2>&1; RC=$?
+unshare -m bash -c "mount --bind $WT /repo && cd $V && VERIF_EVIDENCE_DIR=$V/work/trial_evidence checks/run $C $T" > $V/work/mutant_$C.log 2>&1; RC=$?
 git checkout -q -- .
 # the real /repo's files are older than what was just built: make cargo forget the patched build of dryoc
 rm -rf $V/harness/target/*/debug/.fingerprint/dryoc-* $V/harness/target/*/release/.fingerprint/dryoc-* $V/work/c20*/target/debug/.fingerprint/dryoc-* 2>/dev/null
